@@ -48,6 +48,10 @@ const MARKERS: &[(&str, &str, &str)] = &[
     ("litep2p::transport-manager", "failed to handle established connection", "mgr_established_err"),
 ];
 
+fn is_transport(t: &str) -> bool {
+    t.starts_with("litep2p::quic") || t.starts_with("litep2p::websocket") || t.starts_with("litep2p::tcp")
+}
+
 pub struct Cap;
 
 struct V(String);
@@ -65,6 +69,7 @@ impl Subscriber for Cap {
         let t = md.target();
         (t == "litep2p::ipfs::kademlia" && *md.level() <= Level::DEBUG)
             || (t == "litep2p::transport-manager" && *md.level() <= Level::TRACE)
+            || (is_transport(t) && *md.level() <= Level::DEBUG)
     }
     fn new_span(&self, _: &Attributes<'_>) -> Id {
         Id::from_u64(1)
@@ -79,6 +84,17 @@ impl Subscriber for Cap {
         let mut v = V(String::new());
         ev.record(&mut v);
         let tgt = ev.metadata().target();
+        if is_transport(tgt) {
+            // diagnostics only: the first debug lines of the transports of this node
+            let mut g = SINK.lock().unwrap();
+            let v2 = g.get_or_insert_with(HashMap::new).entry((net, node)).or_default().entry("transport_debug").or_default();
+            if v2.len() < 40 {
+                let mut line = format!("{}:{}", tgt, v.0);
+                line.truncate(600);
+                v2.push(line);
+            }
+            return;
+        }
         for (t, pat, name) in MARKERS {
             if tgt == *t && v.0.contains(pat) {
                 let name: &'static str = if *name == "mgr_dial_command_refused" {
